@@ -134,23 +134,55 @@ def interpreterSet (ret : Val) : Bool :=
   | none => false
   | some _ => true
 
-/-- everything after the component has been found -/
-def resolveComp (d : Desc) (P : S) (c : Comp) (prim : Bool) (fuel : Nat) : Except Err Val :=
+/-- the keyword arguments of `get_component_configuration` that select what is computed:
+`raw`, `include_default`, `is_primitive`, `inject_missing_fields` -/
+structure Flags where
+  raw : Bool
+  incl : Bool
+  prim : Bool
+  inject : Bool
+  deriving Repr, Inhabited, DecidableEq
+
+/-- the observed call of the property: `raw=False, include_default=True, inject_missing_fields=True` -/
+def Flags.std (prim : Bool) : Flags := ⟨false, true, prim, true⟩
+
+/-- `need_fully_resolved_flowir` (the only variant that goes through the cache) -/
+def Flags.full (f : Flags) : Bool := !f.raw && f.inject && f.incl && !f.prim
+
+/-- `get_component_variables(..., include_default_* = include_platform_* = incl)`: without the default /
+platform scopes only the component's own variables and its override for the platform remain -/
+def varsOfF (d : Desc) (P : S) (c : Comp) (incl : Bool) : Fields :=
+  if incl then varsOf d P c else update (compVars c) (ovrVars c P)
+
+/-- the inheritance sequence; `inject_missing_fields=False` drops the built-in defaults -/
+def layersF (d : Desc) (P : S) (c : Comp) (inject : Bool) : List Val :=
+  if inject then layers d P c else (layers d P c).drop 1
+
+/-- everything after the component has been found, for every combination of the keyword arguments:
+layer, (`inject`: interpreter digestion, not modelled) insert the variables, and unless `raw`:
+(`full` only) defaults once more + `isRepeat`, interpolate with the selected variables, convert types -/
+def resolveCompF (d : Desc) (P : S) (c : Comp) (f : Flags) (fuel : Nat) : Except Err Val :=
   if !d.platforms.contains P then .error .platformUnknown else
-  let vars := varsOf d P c
-  match layerAll (.dict []) (layers d P c) with
+  let vars := varsOfF d P c f.incl
+  match layerAll (.dict []) (layersF d P c f.inject) with
   | .error e => .error e
   | .ok ret =>
     if interpreterSet ret then .error .unsupported else
     match ret with
     | .dict kvs =>
-      match injectDefaults (.dict (set kvs "variables".toList (.dict vars))) with
+      let ret1 := Val.dict (set kvs "variables".toList (.dict vars))
+      if f.raw then .ok ret1 else
+      match (if f.full then injectDefaults ret1 else .ok ret1) with
       | .error e => .error e
       | .ok ret2 =>
-        match fillIn fuel vars prim ret2 with
+        match fillIn fuel vars f.prim ret2 with
         | .error e => .error e
-        | .ok ret3 => convert prim St4sd.Gen.C04.typeTable ret3
+        | .ok ret3 => convert f.prim St4sd.Gen.C04.typeTable ret3
     | _ => .error .inconsistent
+
+/-- the observed call (`raw=False, include_default=True, inject_missing_fields=True`) -/
+def resolveComp (d : Desc) (P : S) (c : Comp) (prim : Bool) (fuel : Nat) : Except Err Val :=
+  resolveCompF d P c (Flags.std prim) fuel
 
 def findComp : List Comp → Nat → S → Option Comp
   | [], _, _ => none
@@ -162,6 +194,13 @@ def resolve (d : Desc) (P : S) (i : Nat) (n : S) (prim : Bool) (fuel : Nat) : Ex
   match findComp d.comps i n with
   | none => .error .componentUnknown
   | some c => resolveComp d P c prim fuel
+
+/-- `get_component_configuration((i, n), raw, include_default, platform=P, is_primitive,
+inject_missing_fields)` without the cache, for every combination of the keyword arguments -/
+def resolveF (d : Desc) (P : S) (i : Nat) (n : S) (f : Flags) (fuel : Nat) : Except Err Val :=
+  match findComp d.comps i n with
+  | none => .error .componentUnknown
+  | some c => resolveCompF d P c f fuel
 
 /-! ### user variables (conf.py 951-971, `_patch_in_variable_files`) -/
 
